@@ -177,7 +177,7 @@ def check_message(mw: MsgWorld, mbox: str, uid: int, raw: bytes, spec: dict | No
     n = len(full)
     parts = []
     for o in sorted({0, 1, max(n - 1, 0), n, n + 1}):
-        for cnt in sorted({1, 2, max(n, 1)}):
+        for cnt in sorted({1, 2, max(n, 1), n + 7}):  # (n + 7: "the rest of it", a count larger than the item)
             parts.append((o, cnt))
     r, resps = mw.cmd(f"UID FETCH {uid} (" + " ".join(f"BODY.PEEK[]<{o}.{c}>" for o, c in parts) + ")", replay)
     if r is not None and r.typ == "OK":
@@ -196,6 +196,23 @@ def check_message(mw: MsgWorld, mbox: str, uid: int, raw: bytes, spec: dict | No
                         if gotv != want or k.upper() != f"BODY[]<{o}>":
                             mw.fail("C16.partial", dict(det, origin="end" if o >= n - 1 else "start", past_end=o >= n), replay, (o, c, want[:40]), (k, gotv[:40]))
                             break
+    # the same for the two halves: a partial of BODY[HEADER] / BODY[TEXT] is a slice of that item
+    for item, whole in (("HEADER", hdr), ("TEXT", txt)):
+        m = len(whole)
+        ps = [(o, c) for o in sorted({0, 1, m, m + 2}) for c in sorted({2, m + 5})]
+        r, resps = mw.cmd(f"UID FETCH {uid} (" + " ".join(f"BODY.PEEK[{item}]<{o}.{c}>" for o, c in ps) + ")", replay)
+        if r is not None and r.typ == "OK":
+            for x in resps:
+                if x.kind == "untagged" and x.typ == "FETCH" and not x.errors:
+                    vals = [(str(k), v) for k, v in zip(x.data[0::2], x.data[1::2]) if str(k).upper().startswith(f"BODY[{item}]<")]
+                    if vals and len(vals) == len(ps):
+                        for (o, c), (k, v) in zip(ps, vals):
+                            want = whole[o : o + c]
+                            gotv = b"" if v is None else bytes(v)
+                            if gotv != want:
+                                mw.fail("C16.partial", dict(det, origin="end" if o >= m - 1 else "start", past_end=o >= m, item=item), replay,
+                                        (o, c, want[:40]), (k, gotv[:40]))
+                                break
     # C07: structural items -- syntax is checked by cmd(); decode what can be decoded
     multipart = b"multipart/" in hdr.lower()
     r, resps = mw.cmd(f"UID FETCH {uid} (ENVELOPE BODYSTRUCTURE BODY INTERNALDATE FLAGS BODY.PEEK[1] {'BODY.PEEK[1.MIME] BODY.PEEK[2] ' if multipart else ''}"
@@ -344,7 +361,8 @@ def fixtures():
     return out
 
 
-NAMES = ["plain", "sp ace", 'q"uote', "back\\slash", "caf\xe9", "per%cent", "st*ar", "br[ack]et", "{5}", "tr\\", "a/b c/d\"e", "&-amp", "x\ty"]
+NAMES = ["plain", "sp ace", 'q"uote', "back\\slash", "caf\xe9", "per%cent", "st*ar", "br[ack]et", "{5}", "tr\\", "a/b c/d\"e", "&-amp", "x\ty",
+         "two  spaces", " lead", "trail ", "caf\xc3\xa0", "\xc3\x85rhus", "nb\xa0sp"]  # white space that must come back exactly (runs, ends, octets 0x85/0xA0)
 KEYWORDS = ["$Fwd", "kw-1", "kw.dot", "kw[1]", "\xe9kw"]
 
 
